@@ -122,6 +122,13 @@ def judge_case(spec, do_collapse_pair=False, do_headers=False, do_table=False):
                         (p in o_m['may'] and p not in o_r['must'] and (p in o['must'] or p not in o['may'])) or
                         (p not in o_r['may'] and p in o_m['may'])
                         for p in (outset ^ s2))
+                diff_ = outset ^ s2
+                if diff_ and not (diff_ & o['may']):
+                    # the settings differ only in UNREALIZABLE peptides (C02's matter): are all of them products of the recorded
+                    # circRNA mechanism (laps of a small circle carrying different alleles, KF-CIRC-LAP-MIX)?
+                    lim_ = o['lim'].mixed_copy('mixed') if o['lim'].has_context() else o['lim']
+                    mixes = [orc.circ_lapmix_peptides(bb, lim_, o['flags']) for bb, _ev in o['per'] if bb.circular]
+                    res['collapse_diff_lapmix'] = bool(mixes) and all(any(m is not None and p in m for m in mixes) for p in diff_)
                 res['has_nested'] = any(e.tag == 'nested-donor' for bb in o['bbs'] for e in bb.edits)
                 res['collapse_cfg'] = alt
                 res['counters']['collapse_pairs'] = 1
